@@ -1214,7 +1214,11 @@ impl TieredEngine {
         // Step 1: Search Layer 2 (Hot Tier) - recent writes
         // Over-fetch by 2× to ensure good candidates after merging
         let hot_results =
-            self.filter_hot_knn_results_to_canonical(self.hot_tier.knn_search(query, k * 2));
+            self.filter_hot_knn_results_to_canonical(self.hot_tier.knn_search_with_coherence(
+                query,
+                k * 2,
+                None,
+            ));
 
         debug!(
             "Hot tier search returned {} results (requested {})",
@@ -1431,7 +1435,9 @@ impl TieredEngine {
         let hot_results: Vec<Vec<(u64, f32)>> = miss_queries
             .iter()
             .map(|query| {
-                self.filter_hot_knn_results_to_canonical(self.hot_tier.knn_search(query, k * 2))
+                self.filter_hot_knn_results_to_canonical(
+                    self.hot_tier.knn_search_with_coherence(query, k * 2, None),
+                )
             })
             .collect();
 
@@ -1564,10 +1570,13 @@ impl TieredEngine {
         final_results
     }
 
-    fn filter_hot_knn_results_to_canonical(&self, hot_results: Vec<(u64, f32)>) -> Vec<(u64, f32)> {
+    fn filter_hot_knn_results_to_canonical(
+        &self,
+        hot_results: Vec<(u64, f32, VectorCoherenceToken)>,
+    ) -> Vec<(u64, f32)> {
         hot_results
             .into_iter()
-            .filter_map(|(doc_id, distance)| {
+            .filter_map(|(doc_id, distance, searched_coherence)| {
                 let Some((hot_embedding, hot_coherence)) =
                     self.hot_tier.peek_with_coherence(doc_id)
                 else {
@@ -1577,6 +1586,13 @@ impl TieredEngine {
                     );
                     return None;
                 };
+                if hot_coherence != searched_coherence {
+                    // The mirror entry was replaced after the scan computed this distance.
+                    // Validating the *new* entry would pair the old version's distance with the
+                    // new version (and let that result be cached); drop the candidate, the cold
+                    // tier search covers the document.
+                    return None;
+                }
                 match self.canonical_vector_state(
                     doc_id,
                     &hot_embedding,
@@ -1889,7 +1905,7 @@ impl TieredEngine {
                             let hot_cancel_worker = Arc::clone(&hot_cancel);
                             move || {
                                 let _worker_permit = worker_permit;
-                                hot_tier.knn_search_with_cancel(
+                                hot_tier.knn_search_with_coherence(
                                     &query_vec,
                                     k_candidates,
                                     Some(hot_cancel_worker.as_ref()),
